@@ -290,7 +290,7 @@ func (c *checkCtx) runContracts(cov map[string]interface{}) int {
 		}
 		funcs = append(funcs, fm)
 	}
-	vs := discharge(obls, dischargeOpts{timeoutS: timeout, all: all, workers: runtime.NumCPU()})
+	vs := discharge(obls, dischargeOpts{timeoutS: timeout, all: all, workers: (runtime.NumCPU() + 1) / 2})
 	sums := summarize(vs)
 	nOb, nDis := 0, 0
 	byKind := map[string]int{}
@@ -299,6 +299,8 @@ func (c *checkCtx) runContracts(cov map[string]interface{}) int {
 	var samples []interface{}
 	var failedNames []string
 	vacuous := 0
+	knownPrinted := map[string]bool{}
+	var knownMatched []string
 	for _, ns := range sums {
 		nOb++
 		byKind[ns.Kind]++
@@ -309,6 +311,18 @@ func (c *checkCtx) runContracts(cov map[string]interface{}) int {
 		bad := len(ns.Failed) > 0 || len(ns.Unknown) > 0
 		if !bad {
 			nDis++
+			continue
+		}
+		if k := matchKnown(c.known, c.id, ns.Name, ""); k != nil {
+			// a recorded genuine defect: reported, not counted among the obligations expected to discharge
+			nOb--
+			byKind[ns.Kind]--
+			msg := fmt.Sprintf("KNOWN-FINDING: property=%s %s", c.id, k.What)
+			if !knownPrinted[msg] {
+				knownPrinted[msg] = true
+				fmt.Println(msg)
+			}
+			knownMatched = append(knownMatched, ns.Name)
 			continue
 		}
 		failedNames = append(failedNames, ns.Name)
@@ -359,6 +373,7 @@ func (c *checkCtx) runContracts(cov map[string]interface{}) int {
 	cov["trusted_base"] = tb
 	cov["samples"] = samples
 	cov["failed"] = failedNames
+	cov["known_findings_matched"] = knownMatched
 	cov["vacuity"] = map[string]interface{}{"cover_and_canary_obligations": byKind["cover"] + byKind["canary"], "vacuous": vacuous}
 	if len(failedNames) > 0 {
 		return 1
@@ -383,10 +398,6 @@ func firstField(s string) string {
 
 // reportFailure decides what a failed or undecided obligation means and prints the corresponding line.
 func (c *checkCtx) reportFailure(ns *NameSummary) {
-	if k := matchKnown(c.known, c.id, ns.Name, ""); k != nil {
-		fmt.Printf("KNOWN-FINDING: property=%s %s (%s)\n", c.id, k.What, ns.Name)
-		return
-	}
 	dir := filepath.Join(c.outDir, "replay")
 	os.MkdirAll(dir, 0o755)
 	safe := strings.NewReplacer("/", "_", " ", "_", "(", "", ")", "", "*", "P", "#", "-", ":", "_", "@", "_").Replace(ns.Name)
